@@ -3,27 +3,52 @@
    connection goroutines (request loop of serveConnCounted, serveConnCleanup), ShutdownWithContext (stop flag, closeListenersLocked,
    close(s.done), loop { closeIdleConns; serving / open check; ticker | ctx.Done }), clients (send, close) and the clock, for any
    number of Serve calls and connections, with pipelining and with requests arriving while idle connections are being closed. *)
-From FH Require Import Model.Base Model.Shutdown Spec.ShutdownSpec Proof.ShutdownProof Proof.ShutdownGraceful.
+From FH Require Import Model.Base Model.Shutdown Spec.ShutdownSpec Proof.ShutdownProof Proof.ShutdownReuse Proof.ShutdownGraceful.
 Open Scope Z_scope.
 
-(* After Shutdown returned nil: every listener is closed, every Serve call has returned, no request handler is running (handlers
-   abandoned by TimeoutHandler and hijack handlers are not threads of the model), no connection is counted, the stop flag is reset.
-   This uses that s.serving is read before s.open; no assumption on the listener is needed for this direction. *)
-Theorem C15_returns_after_handlers : forall cf s, reach cf s -> sd s = SReturnedNil -> at_rest s.
+(* The Server can be reused: [reach] covers any number of Serve / ShutdownWithContext cycles on one Server, successful and timed-out calls
+   mixed, also Serve or Shutdown again after a call that returned ctx.Err().  s.done and s.doneClosed are state (Model/Shutdown.v, dstate):
+   Serve makes a fresh channel when s.done is nil, close(s.done) is guarded by s.doneClosed, the success branch resets both, the ctx.Done()
+   branch resets nothing.
+
+   When a call of Shutdown has returned nil (no call running, no listener registered since) and no call that returned ctx.Err() is pending:
+   every listener is closed, every Serve call has returned, no request handler is running (handlers abandoned by TimeoutHandler and hijack
+   handlers are not threads of the model), no connection is counted, the stop flag is reset.  This uses that s.serving is read before
+   s.open; no assumption on the listener is needed for this direction. *)
+Theorem C15_returns_after_handlers : forall cf s, reach cf s -> just_shut_down s -> at_rest s.
 Proof. exact returns_at_rest. Qed.
 Print Assumptions C15_returns_after_handlers.
 
+(* [just_shut_down] is what holds when a call returns nil: always when it returns through its loop (in every cycle) ... *)
+Theorem C15_return_through_loop : forall cf s s', reach cf s -> step cf s LReadOpen = Some s' -> sd s' = SReturnedNil -> just_shut_down s'.
+Proof. exact return_through_loop. Qed.
+Print Assumptions C15_return_through_loop.
+
+(* ... and through the `if s.ln == nil { return nil }` shortcut unless an earlier call returned ctx.Err() and is still pending: then the
+   shortcut returns nil while handlers may still run (C15_ex_reuse).  The documentation excludes that use ("When ShutdownWithContext returns
+   errors, any operation to the Server is unavailable"), so it is a condition here and not a finding. *)
+Theorem C15_return_through_shortcut : forall cf s s', step cf s LSetStop = Some s' -> sd s' = SReturnedNil ->
+  sd_running s' = false /\ tainted (dn s') = tainted (dn s) /\ Forall (fun lp => inln lp = false) (loops s').
+Proof. exact return_through_shortcut. Qed.
+Print Assumptions C15_return_through_shortcut.
+
 (* "Serve has returned" as a statement of its own.  That Serve returns AT ALL after the listener was closed (so that Shutdown can return)
    is the step LAcceptFail: ln.Accept() fails once ln.Close() was called - an assumption on the net.Listener / the OS. *)
-Theorem C15_serve_returned : forall cf s, reach cf s -> sd s = SReturnedNil ->
+Theorem C15_serve_returned : forall cf s, reach cf s -> just_shut_down s ->
   Forall (fun lp => lrunning lp = false /\ lnopen lp = false) (loops s) /\ serving s = 0.
 Proof. intros cf s R H. destruct (returns_at_rest cf s R H) as (_ & Hl & _ & _ & Hs & _). split; assumption. Qed.
 Print Assumptions C15_serve_returned.
 
-(* Requests' Done channels: s.done is closed from close(s.done) on, for as long as Shutdown runs and after it returned. *)
-Theorem C15_done_closed : forall cf s, reach cf s -> done_must_be_closed s -> doneClosed s = true.
+(* Requests' Done channels, in EVERY cycle: once a call of ShutdownWithContext is past close(s.done) - and also after it gave up - the
+   channel that ctx.Done() gave to any handler that is running has been closed; and a handler never gets a nil channel.  (A Server whose
+   success branch forgot `s.doneClosed = false` would skip close(s.done) from the second cycle on: the first theorem is then false.) *)
+Theorem C15_done_closed : forall cf s, reach cf s -> shutdown_past_close_done s -> Forall (done_closed_for s) (conns s).
 Proof. exact done_closed'. Qed.
 Print Assumptions C15_done_closed.
+
+Theorem C15_done_never_nil : forall cf s, reach cf s -> Forall (fun r => pc r = CHandler -> cdone r <> None) (conns s).
+Proof. exact done_not_nil. Qed.
+Print Assumptions C15_done_never_nil.
 
 (* ... and the stop flag that ends the request loops is set exactly while Shutdown runs *)
 Theorem C15_stop_flag : forall cf s, reach cf s -> stop s = sd_active (sd s).
@@ -36,20 +61,20 @@ Theorem C15_handler_accounting : forall cf s, reach cf s -> Forall cwf (conns s)
 Proof. exact accounting. Qed.
 Print Assumptions C15_handler_accounting.
 
-(* "Every request whose handler started before or during shutdown had its response written": when Shutdown returns nil, every handler that was
-   ever started on any connection has its response at the client, unless the client itself had closed the connection (lostc); the server made
+(* "Every request whose handler started before or during shutdown had its response written": when a call of Shutdown has returned nil (in any cycle; no ShutdownWithContext of this Server has ever returned an error),
+   every handler that was ever started on any connection has its response at the client, unless the client itself had closed the connection (lostc); the server made
    no response undeliverable (lost = 0) - it neither closed a connection under a started handler nor dropped a response from its writer.
    Full strength, all interleavings.  This is the code after three repairs that this property's harness led to (66dbd41 flush on the stop
    check, 3ea360e no handler on a connection closeIdleConns has just closed, ce44e94 a connection in the middle of a pipeline is not marked
    idle); before them the statement was false, the three schedules are replayed in the examples below. *)
-Theorem C15_started_handlers_answered : forall cf s, reach cf s -> sd s = SReturnedNil ->
+Theorem C15_started_handlers_answered : forall cf s, reach cf s -> failed (dn s) = false -> just_shut_down s ->
   Forall (fun r => answered r /\ lost r = 0) (conns s).
 Proof. exact answered_at_return. Qed.
 Print Assumptions C15_started_handlers_answered.
 
-(* Stronger, at every moment: as long as Shutdown has not returned an error the server has lost no response, and every finished connection
+(* Stronger, at every moment: as long as no ShutdownWithContext call has returned an error the server has lost no response, and every finished connection
    has all its started handlers answered. *)
-Theorem C15_nothing_lost_unless_shutdown_gave_up : forall cf s, reach cf s -> sd s <> SReturnedErr ->
+Theorem C15_nothing_lost_unless_shutdown_gave_up : forall cf s, reach cf s -> failed (dn s) = false ->
   Forall (fun r => lost r = 0) (conns s) /\ Forall (fun r => pc r = CClosed -> answered r) (conns s).
 Proof. intros cf s R H. split; [exact (nothing_lost cf s R H)|exact (answered_when_done cf s R H)]. Qed.
 Print Assumptions C15_nothing_lost_unless_shutdown_gave_up.
@@ -84,7 +109,7 @@ Example C15_ex_graceful :
   | Some s1 =>
       match run (mkCfg false false) s1 graceful_shutdown with
       | Some s => sd s = SReturnedNil /\ map started (conns s) = [1; 1; 1] /\ map delivered (conns s) = [1; 1; 1]
-                  /\ map srvClosed (conns s) = [true; true; false] /\ n_lost s = 0 /\ doneClosed s = true
+                  /\ map srvClosed (conns s) = [true; true; false] /\ n_lost s = 0 /\ closedch (dn s) = [O] /\ done (dn s) = None
       | None => False
       end
   | None => False
@@ -117,6 +142,30 @@ Example C15_ex_pipelined_conn_is_not_closed_as_idle_now :
 Proof. exact pipelined_conn_is_not_closed_as_idle_now. Qed.
 
 (* Shutdown on a server on which Serve was never called returns at once; a context that expires gives an error and resets the stop flag *)
+(* two cycles on one Server (the second Shutdown closes the fresh channel of the second Serve), then a timed-out call, a call after it
+   (shortcut), and Serve once more *)
+Example C15_ex_reuse :
+  match run (mkCfg false false) init cycle1 with
+  | Some s1 =>
+      sd s1 = SReturnedNil /\ done (dn s1) = None /\ dflag (dn s1) = false /\ closedch (dn s1) = [O] /\
+      match run (mkCfg false false) s1 cycle2_until_done_closed with
+      | Some s2 =>
+          sd s2 = SWait /\ map cdone (conns s2) = [Some O; Some 1%nat] /\ n_handlers s2 = 1 /\
+          done (dn s2) = Some 1%nat /\ chan_closed (dn s2) 1 = true /\
+          match run (mkCfg false false) s2 [LCtxExpire; LSetStop] with
+          | Some s3 => sd s3 = SReturnedNil /\ tainted (dn s3) = true /\ n_handlers s3 = 1 /\ chan_closed (dn s3) 1 = true /\
+                       match run (mkCfg false false) s3 ([LServeStart] ++ one_request 2 2) with
+                       | Some s4 => map cdone (conns s4) = [Some O; Some 1%nat; Some 1%nat] /\ chan_closed (dn s4) 1 = true
+                       | None => False
+                       end
+          | None => False
+          end
+      | None => False
+      end
+  | None => False
+  end.
+Proof. exact reuse_example. Qed.
+
 Example C15_ex_no_listener : run (mkCfg false false) init [LSetStop] = Some (set_sd init SReturnedNil).
 Proof. reflexivity. Qed.
 
@@ -124,7 +173,7 @@ Example C15_ex_ctx_expires :
   match run (mkCfg false false) init
         [LServeStart; LAccept 0; LOpenInc 0; LSend 0; LRegIdle 0; LSetDeadline 0; LPeekOk 0; LStore0 0; LLoadStop 0; LReadReq 0;
          LSetStop; LCloseListeners; LAcceptFail 0; LCloseDone; LCloseIdle; LReadServing; LReadOpen; LCtxExpire] with
-  | Some s => sd s = SReturnedErr /\ stop s = false /\ n_handlers s = 1 /\ doneClosed s = true
+  | Some s => sd s = SReturnedErr /\ stop s = false /\ n_handlers s = 1 /\ chan_closed (dn s) 0 = true /\ tainted (dn s) = true
   | None => False
   end.
 Proof. vm_compute. repeat split; reflexivity. Qed.
